@@ -118,6 +118,18 @@ CHECKS = {
         note='Bounded runtime contracts; oracle: CPython positions and ast.walk. Nothing proved.',
         technique='bounded runtime contracts on traversal APIs against an independent reference order',
         ref='DESIGN.md section 4 C14'),
+    'C15': dict(
+        category='exploration',
+        text='Bounded: 12 small programs x on in {enter, leave, both} x back x every step of the walk x 9 mutation '
+             'actions (current node / parent / previous / next sibling; replace, replace by a node with children, '
+             'remove) x send in {None, True, False}, plus leave-mode replace+send(True) and search() under mutation: '
+             'no exception, termination within 6n+60 steps, every yielded node is part of the tree when yielded, no '
+             'node entered twice, children of a replacement are walked unless send(False), final tree satisfies C01 '
+             '(norm=True).',
+        note='Bounded runtime contracts on the real generator. Nothing proved; liveness / termination over arbitrary '
+             'interleavings is outside the technique.',
+        technique='bounded runtime contracts (liveness / duplication monitor) on walk() under mutation',
+        ref='DESIGN.md section 4 C15'),
     'C20': dict(
         category='proof',
         text='Proof of the option store algebra for ALL option mappings (abstract keys/values, z3 arrays): '
